@@ -331,6 +331,12 @@ def run(ctx, bt, n=None, name="rebalance-algo"):
         run_case(ctx, bt, case, collected)
     compare_model(ctx, bt, collected, name)
     over_time(ctx, bt, ctx.scale(40, 600))
+    if name == "rebalance-algo":
+        # Rebalance inside complete backtests whose data contain a price that drops to exactly zero while the name is held, most stacks
+        # carrying CloseDead before Rebalance (which cannot allocate at a zero price): the real run against the whole-program model
+        from .. import whole_run as W
+        W.whole_run_protocol(ctx, bt, ctx.scale(30, 500), "whole-run-x[C06]:close-dead",
+                             make_spec=lambda rng: W.gen_spec_x(rng, raising=True, dead=True), extended=True)
 
 
 def search(ctx, bt):
